@@ -170,3 +170,48 @@ def run(sh):
         sh.run_case(case, nontrivial=nt, labels=labels, raise_unattributed=True)
 
     sh.given(G.cases(), body, sh.budget(5000, 200000), tag="gen")
+    if not sh.quick:
+        run_atheris(sh)
+
+
+def run_atheris(sh):
+    """secondary, coverage-guided driver (thorough tier): fuzz/c38_atheris.py feeds libFuzzer's
+    byte strings through `hypothesis.fuzz_one_input` of the same strategy into the same
+    check_case; a violation it finds is re-executed here so that it is recorded like any other"""
+    import json
+    import subprocess
+    import sys
+
+    from vlib import scratchdir
+    from vlib.harness import HOME, HarnessError
+
+    try:
+        import atheris  # noqa: F401
+    except ImportError:
+        sh.note("atheris is not importable: coverage-guided driver skipped")
+        return
+    runs = sh.budget(0, 480000)
+    left = int(sh.time_left()) - 60
+    if runs <= 0 or left < 30:
+        sh.note("no time left for the coverage-guided driver")
+        return
+    d = scratchdir.new("c38fz")
+    summary = d / "summary.json"
+    cmd = [sys.executable, str(HOME / "fuzz" / "c38_atheris.py"), str(summary), *sorted(sh.known),
+           "--", f"-runs={runs}", "-max_len=2048", "-len_control=0", f"-seed={sh.seed % 2**31}",
+           f"-artifact_prefix={d}/", f"-max_total_time={left}"]
+    try:
+        p = subprocess.run(cmd, capture_output=True, text=True, timeout=left + 120)
+        if not summary.exists():
+            raise HarnessError(f"atheris driver left no summary (exit {p.returncode}): "
+                               f"{(p.stderr or '')[-400:]}")
+        data = json.loads(summary.read_text())
+        sh.count("atheris_property_executions", data["executions"])
+        sh.count("atheris_known_hits", data["known_hits"])
+        if data["violation"]:
+            sh.run_case(data["violation"]["case"], nontrivial=True, labels=["found_by_atheris"],
+                        raise_unattributed=False)
+        elif p.returncode != 0:
+            raise HarnessError(f"atheris driver exited {p.returncode}: {(p.stderr or '')[-400:]}")
+    finally:
+        scratchdir.rm(d)
